@@ -47,9 +47,13 @@ class ControlledRandom:
     def choice(self, a, size=None, replace=True, p=None):
         arr = np.arange(a) if isinstance(a, (int, np.integer)) else np.array(list(a))
         support = list(range(len(arr))) if p is None else [i for i, q in enumerate(p) if q > 0]
+        n = 1 if size is None else (int(size) if not isinstance(size, tuple) else int(np.prod(size)))
+        if len(support) == 0 and n > 0:
+            raise ValueError("'a' cannot be empty unless no samples are taken")   # numpy's own answer
+        if not replace and n > len(support):
+            raise ValueError("Cannot take a larger sample than population when 'replace=False'")
         if size is None:
             return arr[support[self.ch.pick(len(support), 'choice')]]
-        n = int(size) if not isinstance(size, tuple) else int(np.prod(size))
         out = []
         for _ in range(n):
             j = self.ch.pick(len(support), 'choice')
